@@ -303,6 +303,7 @@ def _worker(arg):
     seed, chunk_no, count = arg
     rng = random.Random(f'{PROP}:{seed}:{chunk_no}')
     agg = {'violations': [], 'counts': {}, 'cases': []}
+    shared_before = T.SHARING['decoded_with_shared_pieces']
     for _ in range(count):
         case = build_case(rng)
         res = eval_case(case)
@@ -310,6 +311,8 @@ def _worker(arg):
             agg['counts'][key] = agg['counts'].get(key, 0) + val
         agg['violations'].extend(res['violations'][:3])
         agg['cases'].append((res['digest'], res['nontrivial']))
+    agg['counts']['pieces_that_are_one_object_at_several_places'] = \
+        T.SHARING['decoded_with_shared_pieces'] - shared_before
     agg['sample'] = case
     return agg
 
@@ -320,7 +323,8 @@ def main(tier: str) -> int:
     per = 500 if tier == 'quick' else 5000
     run.require('lines_compared', 'invariant_evaluations', 'concatenations', 'trims', 'chunks',
                 'blocks_poured_into_blocks',
-                'cond_chunks', 'roundtrips', 'cases_with_line_boundaries')
+                'cond_chunks', 'roundtrips', 'cases_with_line_boundaries',
+                'pieces_that_are_one_object_at_several_places')
     jobs = [(run.seed, i, per) for i in range(total // per)]
     for _item, res in run.pmap(_worker, jobs):
         if 'harness_error' in res:
